@@ -31,6 +31,20 @@ class Program:
         self._look_through_new_helpers()
         self._inline_accessors()
 
+    @property
+    def as_written(self):
+        """the program before closure lowering / accessor inlining: for the few rules that reason about a local closure as a unit
+        (by its number, its captured variables, its call sites) -- they keep the modular view and its dependence on that shape"""
+        v = self.__dict__.get("_as_written")
+        if v is None:
+            import copy
+            v = copy.copy(self)
+            v.fns = dict(self.orig_fns)
+            v._sites = None
+            v.__dict__["_as_written"] = v
+            self.__dict__["_as_written"] = v
+        return v
+
     def _inline_accessors(self):
         """`self.exit_status()` and `match self.child_state { Finished(s) => Some(s), _ => None }` are the same read of the same field: a
         method that takes nothing but `&self`, calls nothing, stores nothing and has no loop is spliced into its callers (it stays a
@@ -624,16 +638,6 @@ def fn_str(fn):
 def load(path):
     with open(path) as f:
         return Program(json.load(f))
-
-
-if __name__ == "__main__":
-    import sys
-
-    prog = load(sys.argv[1])
-    for name in sys.argv[2:]:
-        for f in prog.find(name):
-            print(fn_str(f))
-            print()
 
 
 # ----------------------------------------------------------------------------
@@ -1529,3 +1533,13 @@ class SymTerms(Terms):
         if l > self.fn.arg_count and self.fn.locals[l].get("name"):
             return ("var", l, self.fn.locals[l]["name"])
         return Terms.local(self, l, depth)
+
+
+if __name__ == "__main__":
+    import sys
+
+    prog = load(sys.argv[1])
+    for name in sys.argv[2:]:
+        for f in prog.find(name):
+            print(fn_str(f))
+            print()
